@@ -19,13 +19,13 @@ SPECS = [
         outputs=[("safe_log_std", "Q"), ("std", "Q")],
     ),
     dict(
-        name="dist_squash_update", qual="SquashedDiagGaussianDistribution.log_prob", start=r"^log_prob [-+*/]= ", end=None,
+        name="dist_squash_update", qual="SquashedDiagGaussianDistribution.log_prob", start=r"^log_prob ([-+*/]=|= log_prob\b)", end=None,
         inputs=[("log_prob", "Q"), ("corr", "Q")],
         subst={"th.sum(th.log(1 - actions ** 2 + self.epsilon), dim=1)": "corr"},
         outputs=[("log_prob", "Q")],
     ),
     dict(
-        name="dist_gsde_squash_update", qual="StateDependentNoiseDistribution.log_prob", start=r"^log_prob [-+*/]= ", end=None,
+        name="dist_gsde_squash_update", qual="StateDependentNoiseDistribution.log_prob", start=r"^log_prob ([-+*/]=|= log_prob\b)", end=None,
         inputs=[("log_prob", "Q"), ("corr", "Q")],
         subst={"th.sum(self.bijector.log_prob_correction(gaussian_actions), dim=1)": "corr"},
         outputs=[("log_prob", "Q")],
